@@ -40,6 +40,9 @@ func c17prop(ev *evid.Rec) func(rt *rapid.T) {
 		for i := 0; i < 4; i++ {
 			accounts = append(accounts, acct(fmt.Sprintf("u%d", i), fmt.Sprintf("U%d", i), "pw", hlref.AccessOf(hlref.PrivReadChat, hlref.PrivAnyName)))
 		}
+		// one account is protected: a disconnect request against it is refused, whatever ban option it carries, and must
+		// leave no trace at the door
+		accounts = append(accounts, acct("u4", "U4", "pw", hlref.AccessOf(hlref.PrivReadChat, hlref.PrivAnyName, hlref.PrivCannotBeDiscon)))
 		var history []string
 		nt := false
 		inWorld(rt, hlsim.Options{Agreement: "a", Accounts: accounts}, func(rt *rapid.T, w *hlsim.World) {
@@ -175,7 +178,7 @@ func c17prop(ev *evid.Rec) func(rt *rapid.T) {
 			rt.Repeat(map[string]func(*rapid.T){
 				"connect": func(rt *rapid.T) {
 					ip := rapid.SampledFrom(c17Addrs).Draw(rt, "ip")
-					acc := fmt.Sprintf("u%d", rapid.IntRange(0, 3).Draw(rt, "acct"))
+					acc := fmt.Sprintf("u%d", rapid.IntRange(0, 4).Draw(rt, "acct"))
 					flow := rapid.SampledFrom([]string{"123", "123", "15", "15-nameless"}).Draw(rt, "flow")
 					rec("connect from %s as %s (%s)", ip, acc, flow)
 					attempt(ip, acc, flow)
@@ -197,6 +200,18 @@ func c17prop(ev *evid.Rec) func(rt *rapid.T) {
 						fs = append(fs, fld(hlref.FOptions, hlref.BE16(opt)))
 					}
 					now := time.Now()
+					if u.acct == "u4" {
+						// protected: refused, still connected, nobody told, and the address is as welcome as before
+						if r := admin.Request(hlref.TranDisconnectUser, fs...); r == nil || r.Err == 0 {
+							fail("disconnect request (option %d) against the protected user %d was not refused", opt, u.id)
+						}
+						settle(1*time.Second + time.Millisecond)
+						if u.conn.EOF() {
+							fail("protected user %d was disconnected", u.id)
+						}
+						checkFile("after a refused kick of a protected user")
+						return
+					}
 					if !okReply(admin.Request(hlref.TranDisconnectUser, fs...)) {
 						fail("disconnect request refused")
 					}
